@@ -14,6 +14,10 @@ from . import pat, util
 
 C = "vf_tls"      # context expression inside generated code
 
+CLI_OK = {"reentrant", "yylineno", "stack", "case-insensitive", "7bit", "interactive", "batch",
+          "c++", "nodefault", "reject", "posix-compat", "always-interactive",
+          "never-interactive", "read"}
+
 
 class Flavour:
     def __init__(self, name):
@@ -87,17 +91,24 @@ class Emitter:
                         indent, self.drv_begin(op[1]), C, self.drv_start()))
                 self.uses.add("begin")
             elif k == "push":
+                call = fl.call("yy_push_state", str(op[1]))
+                if fl.cxx and not in_yylex:
+                    call = "lexer->vf_push(%d)" % op[1]
                 out.append("%s%s; vf_evi(%s, \"P\", %s);" % (
-                    indent, fl.call("yy_push_state", str(op[1])), C,
-                    "yystart()" if in_yylex else self.drv_start()))
+                    indent, call, C, "yystart()" if in_yylex else self.drv_start()))
                 self.uses.add("stack")
             elif k == "pop":
+                call = fl.call("yy_pop_state")
+                if fl.cxx and not in_yylex:
+                    call = "lexer->vf_pop()"
                 out.append("%s%s; vf_evi(%s, \"O\", %s);" % (
-                    indent, fl.call("yy_pop_state"), C,
-                    "yystart()" if in_yylex else self.drv_start()))
+                    indent, call, C, "yystart()" if in_yylex else self.drv_start()))
                 self.uses.add("stack")
             elif k == "top":
-                out.append("%svf_evi(%s, \"Q\", %s);" % (indent, C, fl.call("yy_top_state")))
+                call = fl.call("yy_top_state")
+                if fl.cxx and not in_yylex:
+                    call = "lexer->vf_top()"
+                out.append("%svf_evi(%s, \"Q\", %s);" % (indent, C, call))
                 self.uses.add("stack")
                 self.uses.add("top")
             elif k == "setbol":
@@ -166,6 +177,12 @@ class Emitter:
         ind = indent
         if k in ("open", "open_buf", "newin", "restart"):
             o.append("%svf_rewind(%s, %d);" % (ind, C, op[1]))
+        if fl.cxx and k in ("open", "newin", "restart"):
+            o.append('%svf_X(%s, "%s %d");' % (ind, C, k, op[1]))
+            o.append("%s%s->cur_src = %d;" % (ind, C, op[1]))
+            if k == "restart":
+                o.append("%s%syyrestart(std::cin);" % (ind, "" if in_yylex else "lexer->"))
+            return o
         if k == "open":
             o.append('%svf_X(%s, "open %d");' % (ind, C, op[1]))
             if fl.nr:
@@ -343,6 +360,8 @@ class Emitter:
                 L.append("void yyfree(void *p, struct yyguts_t *yyscanner);")
         L.append("}")
         L.append("%{")
+        if fl.cxx:
+            L += self.cxx_class()
         if fl.nr or fl.r:
             if o.get("input", "yyinput_macro") == "yyinput_macro":
                 L.append("#define YY_INPUT(buf,result,max_size) do { (result) = vf_read(%s, yyin, "
@@ -368,6 +387,7 @@ class Emitter:
             opts.append("noyyread")
         if fl.cxx:
             opts.append("c++")
+            opts.append('yyclass="VfLexer"')
         if self.track_ln:
             opts.append("yylineno")
         if "stack" in self.uses:
@@ -403,10 +423,28 @@ class Emitter:
             opts += ["noyyalloc", "noyyrealloc", "noyyfree"]
         for x in o.get("extra_options", []):
             opts.append(x)
+        # the same options may be given on the command line instead (C02/C19: both
+        # spellings must have the same effect)
+        self.cli_args = []
+        if o.get("opts_on_cli"):
+            keep = []
+            for x in opts:
+                if x in CLI_OK:
+                    self.cli_args.append("--" + x)
+                elif x == 'emit="c99"':
+                    self.cli_args.append("--emit=c99")
+                elif x == "caseless":
+                    self.cli_args.append("-i")
+                else:
+                    keep.append(x)
+            opts = keep
         for x in opts:
             L.append("%%option %s" % x)
         if o.get("array") and not fl.cxx:
-            L.append("%array")
+            if o.get("opts_on_cli"):
+                self.cli_args.append("--array")
+            else:
+                L.append("%array")
         elif o.get("pointer_decl"):
             L.append("%pointer")
         xs = [n for n, ex in case["scs"][1:] if ex]
@@ -435,8 +473,97 @@ class Emitter:
         return t
 
     # ------------------------------------------------------------- driver (section 3)
+    def cxx_class(self):
+        """Subclass of yyFlexLexer: input, output, errors and yywrap go to the harness."""
+        case = self.case
+        L = ["class VfLexer : public yyFlexLexer {", "public:",
+             "\tVfLexer() : yyFlexLexer() {}", "\tvirtual int yylex();",
+             "\tvirtual int LexerInput(char *buf, int max_size) { int r = vf_read_idx(%s, "
+             "%s->cur_src, buf, (size_t) max_size); if (r < 0) LexerError(\"input in flex "
+             "scanner failed\"); return r; }" % (C, C),
+             "\tvirtual void LexerOutput(const char *buf, int size) { vf_D(%s, buf, "
+             "(size_t) size); }" % C,
+             "\tvirtual void LexerError(const char *msg) { vf_fatal(%s, msg); }" % C,
+             "\tvoid vf_begin(int s) { yybegin(s); }", "\tint vf_start() { return yystart(); }"]
+        if "stack" in self.uses:
+            L += ["\tvoid vf_push(int s) { yy_push_state(s); }", "\tvoid vf_pop() { yy_pop_state(); }"]
+            if "top" in self.uses:
+                L.append("\tint vf_top() { return yy_top_state(); }")
+        L.append("\tvirtual int yywrap() {")
+        L.append("\t\tstruct vf_ctx *c = %s; int k = c->wrapk++;" % C)
+        L.append("\t\tswitch (k) {")
+        for i, op in enumerate(case.get("wrap", [])):
+            if op[0] == "stop":
+                L.append("\t\tcase %d: vf_W(c, k, 1); return 1;" % i)
+            elif op[0] == "next":
+                L.append("\t\tcase %d: vf_W(c, k, 0); vf_rewind(c, %d); c->cur_src = %d; return 0;"
+                         % (i, op[1], op[1]))
+            else:
+                raise ValueError("cxx flavour: unsupported yywrap op %r" % (op,))
+        L.append("\t\tdefault: vf_W(c, k, 1); return 1;")
+        L.append("\t\t}")
+        L.append("\t}")
+        L.append("};")
+        return L
+
+    def driver_cxx(self):
+        case, o = self.case, self.o
+        d = case.get("driver", {})
+        L = []
+        if o.get("ledger"):
+            L.append("void *yyalloc(yy_size_t n) { return vf_alloc(%s, n); }" % C)
+            L.append("void *yyrealloc(void *p, yy_size_t n) { return vf_realloc(%s, p, n); }" % C)
+            L.append("void yyfree(void *p) { vf_free(%s, p); }" % C)
+        L.append("int yyFlexLexer::yywrap() { return 1; }")
+        L.append("int main(int argc, char **argv) {")
+        L.append("\tstatic struct vf_ctx ctx; int v, ncalls = 0, endk = 0; VfLexer *lexer;")
+        L.append("\tif (argc < 3) return 93;")
+        L.append("\tvf_load(&ctx, argv[1], argv[2]); vf_tls = &ctx; vf_install();")
+        L.append("\tlexer = new VfLexer();")
+        for op in d.get("init", [("open", 0)]):
+            L += self.xop_c(op, "\t", False)
+        after = d.get("after", [])
+        atend = d.get("atend", [])
+        L.append("\tfor (;;) {")
+        L.append("\t\tif (ncalls >= %d) break;" % d.get("maxcalls", 100000))
+        L.append("\t\tncalls++;")
+        L.append("\t\tv = lexer->yylex();")
+        L.append("\t\tvf_R(&ctx, v, lexer->vf_start());")
+        L.append("\t\tif (v == 0) {")
+        L.append("\t\t\tswitch (endk++) {")
+        for i, ops in enumerate(atend):
+            L.append("\t\t\tcase %d:" % i)
+            if ops is None:
+                L.append("\t\t\t\tgoto done;")
+            else:
+                for op in ops:
+                    L += self.xop_c(op, "\t\t\t\t", False)
+                L.append("\t\t\t\tcontinue;")
+        L.append("\t\t\tdefault: goto done;")
+        L.append("\t\t\t}")
+        L.append("\t\t}")
+        if after:
+            L.append("\t\tswitch ((ncalls - 1) %% %d) {" % len(after))
+            for i, ops in enumerate(after):
+                L.append("\t\tcase %d:" % i)
+                L += self.ops_c(ops, "\t\t\t", False)
+                L.append("\t\t\tbreak;")
+            L.append("\t\t}")
+        L.append("\t}")
+        L.append("done:")
+        if o.get("destroy", True):
+            L.append("\tdelete lexer;")
+        if o.get("ledger"):
+            L.append("\tvf_ledger_report(&ctx);")
+        L.append("\tvf_ev1(&ctx, \"Z\");")
+        L.append("\tvf_finish(&ctx, 0);")
+        L.append("}")
+        return L
+
     def driver_c(self):
         case, o, fl = self.case, self.o, self.fl
+        if fl.cxx:
+            return self.driver_cxx()
         d = case.get("driver", {})
         L = []
         a0 = "void" if fl.nr else "yyscan_t yyscanner"
